@@ -6,6 +6,9 @@
              d^j_{m_a m_b}(theta), m_a = -j + a, as a polynomial identity in (C, S); d d^T = 1 modulo C^2 + S^2 = 1
   E6-Dconj   D_matrix_conj(alpha, beta, gamma, 2j)[a][b] == exp(i m_a alpha) d^j_{m_a m_b}(beta) exp(i m_b gamma)
              (row index with alpha, column index with gamma) for 2j = 0..3
+  E6-gather  get_D_matrix_lambda(angle, ja, la, lb, lc)[ia][ib][ic] == D^{ja *}_{la_ia, lb_ib - lc_ic} when
+             |lb_ib - lc_ic| <= ja and 0 otherwise (the delta-index gather the amplitudes consume), for several
+             spin assignments incl. half-integer ones and lc = None
 Unitarity and the group property D(R1) D(R2) = D(R1 R2) are properties of the exact Wigner matrices; they hold for
 the code's matrices because these are proved equal to them entry by entry (for the spins covered).
 The checker's reference formula is itself cross-checked against sympy.physics.quantum.spin.Rotation.d on every run.
@@ -135,3 +138,62 @@ def check_wigner(repo, chk, tier):
         chk.oblige("E6-Dconj", "2j=%d: D_matrix_conj[a][b] == exp(i m_a alpha) d_ab(beta) exp(i m_b gamma) for all %d entries" % (j2, (j2 + 1) ** 2), not bad)
         if bad:
             chk.violation("E6-Dconj", dc.key, "2j=%d" % j2, "%d entries deviate; first: %s" % (len(bad), bad[0]), file="tf_pwa/dfun.py", line=dc.lineno)
+
+
+def check_gather(repo, chk):
+    chk.rule("E6-gather", "get_D_matrix_lambda(angle, ja, la, lb, lc)[ia][ib][ic] == conj D^{ja}_{la[ia], lb[ib]-lc[ic]}(alpha, beta, gamma) for |lb-lc| <= ja and 0 otherwise (delta-index gather), incl. lc=None")
+    TH, AL, GA = sp.symbols("TH AL GA", real=True)
+    S, C = sp.symbols("S C", positive=True)
+    half = sp.Rational(1, 2)
+
+    def trig(kind):
+        def f(tr, a):
+            if sp.simplify(a - TH / 2) == 0:
+                return C if kind == "cos" else S
+            return sp.cos(a) if kind == "cos" else sp.sin(a)
+        return f
+
+    def spins(j):
+        return [-j + k for k in range(int(2 * j) + 1)]
+
+    hooks = {"stack_as_array": True, "concrete_zeros": True, "unary:cos": trig("cos"), "unary:sin": trig("sin"),
+             "builtin.isinstance": lambda tr, args, kwargs, n: isinstance(args[0], int) or bool(getattr(args[0], "is_Integer", False))}
+    fn = repo.fn(DF + "get_D_matrix_lambda")
+    cases = [
+        (sp.Integer(1), spins(sp.Integer(1)), spins(half), spins(half)),
+        (half, spins(half), spins(sp.Integer(1)), spins(half)),
+        (sp.Integer(1), spins(sp.Integer(1)), spins(sp.Integer(1)), [sp.Integer(0)]),
+        (3 * half, spins(3 * half), spins(half), [sp.Integer(0)]),
+        (sp.Integer(1), spins(sp.Integer(1)), spins(sp.Integer(1)), None),
+        (sp.Integer(1), spins(sp.Integer(1)), [sp.Integer(-1), sp.Integer(1)], spins(sp.Integer(1))),  # massless-like helicity list
+    ]
+    for ja, la, lb, lc in cases:
+        tr = Translator(repo, hooks=hooks, max_depth=8)
+        ang = {"alpha": AL, "beta": TH, "gamma": GA}
+        try:
+            out = tr.call_fn(fn, [ang, ja, list(la), list(lb)] + ([list(lc)] if lc is not None else []))
+        except Unmodelled as e:
+            raise AnalysisError("get_D_matrix_lambda not translatable for ja=%s: %s" % (ja, e))
+        lcs = lc if lc is not None else [sp.Integer(0)]
+        shape = (1, len(la), len(lb)) + ((len(lc),) if lc is not None else ())
+        if getattr(out, "shape", None) != shape:
+            raise AnalysisError("get_D_matrix_lambda(ja=%s) has shape %s, expected %s" % (ja, getattr(out, "shape", None), shape))
+        j2 = int(2 * ja)
+        bad = []
+        for ia, a in enumerate(la):
+            for ib, b in enumerate(lb):
+                for ic, c in enumerate(lcs):
+                    got = out[0][ia][ib][ic] if lc is not None else out[0][ia][ib]
+                    delta = b - c
+                    if abs(delta) <= ja:
+                        want = sp.exp(sp.I * a * AL) * wigner_d(j2, int(a + ja), int(delta + ja), C, S) * sp.exp(sp.I * delta * GA)
+                    else:
+                        want = sp.Integer(0)
+                    ok, detail = equal(sp.sympify(got), want)
+                    if ok is None:
+                        raise AnalysisError("E6 normaliser too weak for the gathered D entry (%s,%s,%s): %s" % (a, b, c, detail))
+                    if not ok:
+                        bad.append("D*[%s][%s-%s]: code %s, expected %s" % (a, b, c, got, want))
+        chk.oblige("E6-gather", "ja=%s, lb=%s, lc=%s: all %d gathered entries are conj D_{la, lb-lc} (0 beyond |lb-lc| > ja)" % (ja, lb, lc, len(la) * len(lb) * len(lcs)), not bad)
+        if bad:
+            chk.violation("E6-gather", fn.key, "ja=%s:lc=%s" % (ja, lc), "%d gathered entries deviate; first: %s" % (len(bad), bad[0]), file="tf_pwa/dfun.py", line=fn.lineno)
